@@ -543,6 +543,50 @@ static void fam_c09_exit(G& g, Plan& p) {
   P0.ops.push_back(mk(OP_giveback_check, -1, 4));
 }
 
+
+// a terminated thread's pages are adopted by the main thread (forced collect, or allocation of the same classes) at the same
+// time as other threads free the blocks in them: no free may fall between "abandoned" and "owned again"
+static void fam_c09_adopt_race(G& g, Plan& p) {
+  if (g.chance(0.4)) set_env(p, "ABANDONED_RECLAIM_ON_FREE", g.pick({0, 1}));
+  if (g.chance(0.3)) set_env(p, "VISIT_ABANDONED", 1);
+  if (g.chance(0.15)) set_env(p, "DISALLOW_ARENA_ALLOC", 1);
+  int nfreers = 1 + (int)g.below(3);
+  int nt = 2 + nfreers;
+  int ncls = 1 + (int)g.below(2); std::vector<size_t> cls; for (int i = 0; i < ncls; i++) cls.push_back(class_req(g, 40));
+  int n = 20 + (int)g.below(200);
+  int extra = 20;
+  p.nslots = n + extra; p.progs.resize((size_t)nt);
+  if (g.chance(0.7)) {
+    p.cfg.strategy = ST_TARGETED; p.cfg.hot_p = g.pick({0.3, 0.7}); p.cfg.switch_p = g.pick({0.0, 0.002});
+    p.cfg.hot_funcs = {"mi_segment_reclaim", "mi_free_block_delayed_mt", "_mi_page_try_use_delayed_free", "_mi_page_use_delayed_free", "_mi_page_reclaim", "mi_free_block_mt"};
+    if (g.chance(0.4)) p.cfg.hot_funcs.push_back("_mi_page_thread_free_collect");
+  }
+  Program& P0 = p.progs[0];
+  Program& PR = p.progs[1]; PR.explicit_done = g.chance(0.5);
+  for (int i = 0; i < n; i++) PR.ops.push_back(mk(OP_malloc, i, cls[g.below(cls.size())]));
+  P0.ops.push_back(mk(OP_spawn, 1)); P0.ops.push_back(mk(OP_join, 1));
+  for (int t = 2; t < nt; t++) P0.ops.push_back(mk(OP_spawn, t));
+  // adoption by the main thread while the freers run
+  int act = 4 + (int)g.below(30);
+  for (int i = 0; i < act; i++) {
+    int k = (int)g.below(10); int sl = n + (int)g.below((uint64_t)extra);
+    if (k < 3) P0.ops.push_back(mk(OP_collect, -1, 1));
+    else if (k < 7) P0.ops.push_back(mk(OP_malloc, sl, cls[g.below(cls.size())]));
+    else if (k < 8) P0.ops.push_back(mk(OP_free, sl));
+    else if (k < 9) P0.ops.push_back(mk(OP_check_owner, (int)g.below((uint64_t)n)));
+    else P0.ops.push_back(mk(OP_malloc, sl, 3 * MiB + g.below(6 * MiB)));       // needs a fresh segment: tries to reclaim first
+  }
+  for (int i = 0; i < n; i++) { int t = 2 + (int)g.below((uint64_t)nfreers); p.progs[(size_t)t].ops.push_back(mk(OP_free, i)); }
+  for (int t = 2; t < nt; t++) { auto& ops = p.progs[(size_t)t].ops; if (g.chance(0.5)) for (size_t i = ops.size(); i > 1; i--) std::swap(ops[i - 1], ops[g.below(i)]); p.progs[(size_t)t].explicit_done = g.chance(0.5); }
+  for (int t = 2; t < nt; t++) P0.ops.push_back(mk(OP_join, t));
+  P0.ops.push_back(mk(OP_collect, -1, 1));
+  P0.ops.push_back(mk(OP_verify_all));
+  P0.ops.push_back(mk(OP_census));
+  for (int i = 0; i < n + extra; i++) P0.ops.push_back(mk(OP_free, i));
+  P0.ops.push_back(mkh(OP_expect_empty_heap, -1, -1, 1));
+  P0.ops.push_back(mk(OP_giveback_check, -1, 4));
+}
+
 // several threads leave abandoned segments; a fresh thread allocates from user heaps until those reclaim; then deletes/destroys them
 static void fam_c09_userheap_adopter(G& g, Plan& p) {
   if (g.chance(0.5)) set_env(p, "VISIT_ABANDONED", 1);
@@ -919,6 +963,56 @@ static void fam_c05_realloc(G& g, Plan& p) {
   P.ops.push_back(mk(OP_verify_all));
 }
 
+
+// page-queue history (full -> unfull -> moved to the front of its queue) under blocks that are then re-allocated: in-place
+// growth, expand and moving re-allocation all depend on page flags (has_aligned) that the queue operations must preserve
+static void fam_c05_pagecycle(G& g, Plan& p) {
+  p.nslots = 600;
+  p.progs.resize(1); Program& P = p.progs[0];
+  auto bs = bin_sizes();
+  int rounds = 1 + (int)g.below(2);
+  for (int rd = 0; rd < rounds; rd++) {
+    size_t b = bs[8 + g.below(40)];
+    size_t req = b - (g.padded ? 8 : 0); if ((long)req < 48) req = 48;
+    size_t per_page = (64 * KiB) / b; if (per_page < 1) per_page = 1;
+    size_t n = per_page * (1 + g.below(3)) + g.below(per_page); if (n > 580) n = 580;
+    std::vector<char> is_al(n, 0);
+    for (size_t i = 0; i < n; i++) {
+      if (g.chance(0.12)) {
+        size_t al = (size_t)1 << (4 + g.below(5)); size_t off = 8 * (1 + g.below(3));
+        size_t sz = req > al + 16 ? req - al - 8 : 8;
+        P.ops.push_back(g.chance(0.5) ? mk(OP_malloc_aligned_at, (int)i, sz, al, off) : mk(OP_malloc_aligned, (int)i, sz, al * 2));
+        is_al[i] = 1;
+      }
+      else P.ops.push_back(mk(g.chance(0.2) ? OP_zalloc : OP_malloc, (int)i, req - g.below(3)));
+    }
+    // free a part (never all aligned blocks) so that pages leave the full queue, then allocate until older pages are picked again
+    std::vector<int> idx; for (size_t i = 0; i < n; i++) idx.push_back((int)i);
+    for (size_t i = n; i > 1; i--) std::swap(idx[i - 1], idx[g.below(i)]);
+    size_t nfree = n / 8 + g.below(n / 2 + 1);
+    std::vector<int> freed;
+    for (size_t i = 0; i < nfree; i++) { int sl = idx[i]; if (is_al[(size_t)sl] && g.chance(0.8)) continue; P.ops.push_back(mk(OP_free, sl)); freed.push_back(sl); }
+    if (g.chance(0.3)) P.ops.push_back(mk(OP_collect, -1, 0));
+    size_t refill = g.below(freed.size() + 1);
+    for (size_t i = 0; i < refill; i++) P.ops.push_back(mk(OP_malloc, freed[i], req));
+    for (size_t i = 0; i < 8 + g.below(24); i++) P.ops.push_back(mk(OP_malloc, 590 + (int)g.below(10), req));   // fresh pages in front
+    // now re-allocate survivors, the over-aligned ones first
+    std::vector<int> surv; for (size_t i = 0; i < n; i++) if (is_al[i]) surv.push_back((int)i);
+    for (size_t i = nfree; i < n && surv.size() < 80; i++) surv.push_back(idx[i]);
+    for (int sl : surv) {
+      if (g.chance(0.25)) continue;
+      int k = (int)g.below(10); size_t nsz = k < 4 ? req + g.below(200) : k < 7 ? req - g.below(req / 3) : req * 2 + g.below(req);
+      int c = (int)g.below(10);
+      Op o = c < 3 ? mk(OP_realloc, sl, nsz) : c < 5 ? mk(OP_expand, sl, nsz) : c < 7 ? mk(OP_realloc_aligned, sl, nsz, (size_t)1 << (4 + g.below(5)))
+           : c < 8 ? mk(OP_rezalloc, sl, nsz) : c < 9 ? mk(OP_reallocf, sl, nsz) : mk(OP_realloc_aligned_at, sl, nsz, (size_t)1 << (4 + g.below(4)), 8 * (1 + g.below(3)));
+      P.ops.push_back(o);
+      if (g.chance(0.3)) P.ops.push_back(mk(OP_malloc, 580 + (int)g.below(10), req));   // what a wrongly released block would be handed out to
+    }
+    P.ops.push_back(mk(OP_verify_all));
+    if (g.chance(0.6)) P.ops.push_back(mk(OP_free_all));
+  }
+}
+
 // ---------------------------------------------------------------------------------
 // C06: malformed or oversized requests in the middle of histories
 // ---------------------------------------------------------------------------------
@@ -1136,6 +1230,10 @@ static void fam_c14_arena(G& g, Plan& p) {
   p.nslots = 60; p.progs.resize((size_t)nt);
   p.sample_verify = true;
   Program& P0 = p.progs[0];
+  if (g.chance(0.4)) {   // preempt inside the arena's claim / release / purge sequences and around their OS calls
+    p.cfg.strategy = ST_TARGETED; p.cfg.hot_p = g.pick({0.3, 0.7}); p.cfg.switch_p = 0.0;
+    p.cfg.hot_funcs = {"os_call", "_mi_arena_free", "mi_arena_schedule_purge", "mi_arena_purge", "mi_arena_try_purge", "_mi_bitmap_unclaim_across", "mi_arena_try_alloc_at", "_mi_bitmap_try_claim", "mi_arenas_try_purge"};
+  }
   P0.ops.push_back(mk(OP_reserve_arena, 0, B * 32 * MiB, g.below(2), 1 /*exclusive*/));
   for (int t = 1; t < nt; t++) P0.ops.push_back(mk(OP_spawn, t));
   for (int t = 0; t < nt; t++) {
@@ -1261,6 +1359,8 @@ static const FamilyDef FAMILIES[] = {
   {"c07_base", "C07", fam_c07_base, 0, false},
   {"c07_random", "C07", fam_c07_random, 1, false},
   {"c14_arena", "C14", fam_c14_arena, 0, true},
+  {"c05_pagecycle", "C05", fam_c05_pagecycle, 1, false},
+  {"c09_adopt_race", "C09", fam_c09_adopt_race, 0, true},
   {"c15_arenas", "C15", fam_c15_arenas, 0, true},
   {"c17_misuse", "C17", fam_c17_misuse, 1, true},
   {"c03_align", "C03", fam_c03_align, 1, false},
